@@ -292,7 +292,16 @@ impl<F: Write + Seek> Directory<F> {
             sibling_id = match ordering {
                 Ordering::Less => sibling.left_sibling,
                 Ordering::Greater => sibling.right_sibling,
-                Ordering::Equal => panic!("internal error: insert duplicate"),
+                Ordering::Equal => {
+                    // Callers check for an existing entry first, so this
+                    // can only happen in a damaged directory (e.g. a link
+                    // to a slot that was unallocated).  Give the slot back.
+                    *self.dir_entry_mut(stream_id) = DirEntry::unallocated();
+                    invalid_data!(
+                        "Malformed directory (duplicate name {:?})",
+                        name
+                    );
+                }
             };
         }
         match ordering {
